@@ -181,6 +181,21 @@ def rtTag (z : Bytes) (mask : List Bool) (force : Bool) (mtime mdate : Nat) (new
     let kept := (vin.zipIdx.filter fun (_, i) => !(mask.getD i false)).map (·.1)
     if specView out == some (kept ++ news.map newView) then "ok" else "bad"
   | _, _ => "-"
+/-- `srcdir`: the source directory serialised before and after `Mangle` ran over it.  In the model a `Directory` is a value:
+    `mangle` cannot change it, so both serialisations are the same expression; on the Go side the `File`s of the mangled
+    directory are struct copies that SHARE the `raw` entry bytes with the source, and the op checks that nothing writes
+    through them. -/
+def srcdirLine (z : Bytes) (mask : List Bool) : String :=
+  let r : Rd := ⟨z, false, 0⟩
+  match read r with
+  | .ok d =>
+    match mangle r d.files mask { files := [], size := 0, dirLoc := 0 } [] with
+    | .ok _ =>
+      let (cd, eod, _) := writeDirectory d false
+      let s := s!"wd={toHex cd}:{toHex eod} god={showOrig (getOriginalDirectory d)}"
+      s!"ok before {s} after {s}"
+    | x => "err mangle-" ++ errTag x
+  | x => "err read-" ++ errTag x
 
 /-- `WriteDirectory` on a synthetic directory (exported fields only): `count` members, the first one
     with the given version/sizes/offset, the others empty; reaches the real 16/32-bit thresholds -/
@@ -222,6 +237,10 @@ def handle : List String → String
   | ["read", hex] =>
     match fromHex hex with
     | some z => s!"R {readLine z} | S {streamLine z} #{specTags z}"
+    | none => "bad-op"
+  | ["srcdir", hex, mask, _force] =>
+    match fromHex hex with
+    | some z => s!"{srcdirLine z (if mask = "-" then [] else mask.toList.map (· == '1'))} #{specTags z}"
     | none => "bad-op"
   | "rewrite" :: hex :: mask :: force :: mt :: md :: k :: rest =>
     match fromHex hex, k.toNat?, mt.toNat?, md.toNat? with
